@@ -1,23 +1,36 @@
 #!/usr/bin/env python3
-"""copy new Lean files delivered by a proof worker (/tmp/lw_<K>/lean/Cgm/...) into /verif/lean/Cgm and hook the Props
-continuation files into the axiom audit.  usage: integrate.py K relpath..."""
+"""copy new Lean files delivered by a proof worker (/tmp/<dir>/lean/Cgm/...) into /verif/lean/Cgm, hook the Props
+continuation files and E2E files into the axiom audits and everything into the root module.
+usage: integrate.py <dir under /tmp, e.g. lw3_F> relpath..."""
 import os, re, shutil, sys
 k = sys.argv[1]
+base = f"/tmp/{k}" if k.startswith("lw") else f"/tmp/lw_{k}"
+
+
+def add_import(path, imp):
+    a = open(path).read()
+    if imp + "\n" in a or a.endswith(imp):
+        return
+    lines = a.split("\n")
+    i = max(j for j, l in enumerate(lines) if l.startswith("import "))
+    lines.insert(i + 1, imp)
+    open(path, "w").write("\n".join(lines))
+
+
 for rel in sys.argv[2:]:
-    src = f"/tmp/lw_{k}/lean/Cgm/{rel}"
+    src = f"{base}/lean/Cgm/{rel}"
     dst = f"/verif/lean/Cgm/{rel}"
     if os.path.exists(dst):
         sys.exit(f"refusing to overwrite {dst}")
     os.makedirs(os.path.dirname(dst), exist_ok=True)
     shutil.copy(src, dst)
+    mod = "Cgm." + rel[:-5].replace("/", ".")
     m = re.match(r"Props/(C\d\d)([a-z])\.lean", rel)
     if m:
-        ap = f"/verif/lean/Cgm/Audit/{m.group(1)}.lean"
-        a = open(ap).read()
-        imp = f"import Cgm.Props.{m.group(1)}{m.group(2)}\n"
-        if imp not in a:
-            lines = a.split("\n")
-            i = max(j for j, l in enumerate(lines) if l.startswith("import "))
-            lines.insert(i + 1, imp.strip())
-            open(ap, "w").write("\n".join(lines))
+        add_import(f"/verif/lean/Cgm/Audit/{m.group(1)}.lean", f"import {mod}")
+    m = re.match(r"E2E/(C\d\d)([a-z])\.lean", rel)
+    if m:
+        add_import(f"/verif/lean/Cgm/Audit/E{m.group(1)}.lean", f"import {mod}")
+    if not rel.startswith("Audit/") and not rel.startswith("Gen/") and not re.match(r"(Trace|E2E)/", rel):
+        add_import("/verif/lean/Cgm.lean", f"import {mod}")
     print("integrated", rel)
